@@ -783,7 +783,7 @@ func headerSection(r *hx.Rng, keys []kp, thorough bool) {
 		copy(buf, R)
 		for _, d := range append(deltas, -1, 2, 10, 1, 3) {
 			want := refVrfMsg(R, d)
-			got := logical.VerifVRFGenVrfMsg(buf, d)
+			got := clone(logical.VerifVRFGenVrfMsg(buf, d)) // the result may alias the argument (delta <= 1 returns it)
 			in := map[string]interface{}{"random": hexs(R), "delta": d, "buffer_after": hexs(buf), "returned": hexs(got), "expected": hexs(want)}
 			if !bytes.Equal(buf, R) {
 				res.Violate("C16/pure:argument-modified:genVrfMsg", "genVrfMsg changed the Random bytes it was given", in)
